@@ -239,6 +239,11 @@ class SpanUpdater:
 
     def update(self, offset, bisect):
         """Shift an offset left or right."""
-        index = bisect(self.offsets, offset) - 1
+        if not self.updaters:
+            # nothing of text_before is kept or replaced (it is empty)
+            return offset
+        # offsets before the first range (offset 0 with bisect_left) belong
+        # to the first range, not to the last one
+        index = max(bisect(self.offsets, offset) - 1, 0)
         updater = self.updaters[index]
         return updater(offset)
